@@ -448,14 +448,23 @@ Fixpoint append_inline (M : mode) (b : pblock) (i : pinl) (lr : lrange) : res pb
     | x :: [] => do x' <- append_inline M x i lr; Ok [x']
     | x :: r => do r' <- app_last r; Ok (x :: r')
     end in
+  (* the list arms (document.rs:186-209): the inline goes to the LAST block of the last item when
+     that block is a paragraph - the implicit paragraph of a tight item - and opens a new paragraph
+     otherwise (empty item, or text that follows a rule, code block, heading, table, quote or list
+     of a tight item: `if !matches!(item.last(), Some(DocumentBlock::Para(_)))`) *)
+  let fix app_tail (l : list pblock) : res (list pblock) :=
+    match l with
+    | [] => Ok [BPara lr [i]]
+    | x :: [] => match x with
+                 | BPara _ _ => do x' <- append_inline M x i lr; Ok [x']
+                 | _ => Ok [x; BPara lr [i]]
+                 end
+    | x :: r => do r' <- app_tail r; Ok (x :: r')
+    end in
   let fix app_item (l : list (list pblock)) : res (list (list pblock)) :=
     match l with
     | [] => Panic "append_inline: no item"
-    | it :: [] =>
-        match it with
-        | [] => Ok [[BPara lr [i]]]
-        | _ => do it' <- app_last it; Ok [it']
-        end
+    | it :: [] => do it' <- app_tail it; Ok [it']
     | it :: r => do r' <- app_item r; Ok (it :: r')
     end in
   match b with
